@@ -1,5 +1,6 @@
 // C01 — downlink bytes are well-formed packets carrying each sent message exactly once.
 #include "common.h"
+#include "cfggen.h"
 
 namespace {
 
@@ -18,17 +19,22 @@ struct C01 : Prop {
 		J plan = J::obj();
 		bool thorough = tier == "thorough";
 		auto tree = pc::gen_tree(r, (int) r.range(1, 5));
+		// normal mode (a configuration without equipment, every node unknown to it): only there MSG_PKT_CAPACITY is acted upon
+		bool normal = r.chance(350);
 		J bus = J::obj(); bus.set("nodes", pc::tree_json(tree)); bus.set("resp_delay_us", (int) r.range(100, 3000));
+		if (normal) { cfg::install(plan, cfg::bare_world(tree), r); bus = plan["bus"]; }
 		// slow writes (the send-buffer mutex is held meanwhile)
 		J sw = J::arr();
 		if (r.chance(300)) for (int i = 0, n = (int) r.range(1, 4); i < n; i++) { J e = J::arr(); e.push((int) r.range(1, 60)); e.push((int) r.range(100, 20000)); sw.push(e); }
 		bus.set("slow_writes", sw);
 		plan.set("bus", bus);
 		int flush_ms = r.chance(500) ? 0 : (int) r.range(1, 50);
-		J se = pc::debug_session(flush_ms);
+		J se = normal ? cfg::normal_session(0, flush_ms) : pc::debug_session(flush_ms);
+		plan.set("normal", normal);
 		int nph = (int) r.range(1, thorough ? 4 : 3);
 		int maxtasks = 1;
 		J phs = J::arr();
+		if (normal) { J ph = J::obj(); ph.set("warmup", true); J post = J::arr(); post.push("quiesce"); ph.set("post", post); phs.push(ph); }
 		// Keep the total response budget charged to any node over the whole run <= 48 bytes, so that no message can
 		// legitimately be deferred: every accepted call is then "accepted for immediate transmission".
 		std::map<uint32_t, int> used;
@@ -44,6 +50,7 @@ struct C01 : Prop {
 			size_t ns = (size_t) r.range(2, 12);
 			for (size_t i = 0; i < ns; i++) subset.push_back(r.below(cat::table_n));
 			bool big_phase = r.chance(250);   // long payloads to force the staging-buffer split
+			bool storm = normal && big_phase && r.chance(600);
 			for (int t = 0; t < nt; t++) {
 				J ops = J::arr();
 				int no = (int) r.range(2, thorough ? 40 : 22);
@@ -62,21 +69,28 @@ struct C01 : Prop {
 					if (used[key] + sz > 48) { f = &cat::table[zero_budget[r.below(zero_budget.size())]]; sz = 0; if (f->to_interface_only) key = 0; }
 					if (f->to_interface_only && used[0] + sz > 48) continue;
 					used[f->to_interface_only ? 0 : key] += sz;
-					ops.push(pc::ll_op(r, *f, f->to_interface_only ? tree[0].addr : ad));
+					J lop = pc::ll_op(r, *f, f->to_interface_only ? tree[0].addr : ad);
+					if (storm && (f->type == MSG_VENDOR_GET || f->type == MSG_STRING_SET || (f->type == MSG_FW_UPDATE_OP && std::string(f->name) == "fw_update_op_data"))) {
+						// escape storm: maximal payloads made of bytes that all need escaping (two of them exceed the 312-byte staging buffer)
+						cat::Bytes a; for (size_t k = 0, n = (size_t) r.range(100, 118); k < n; k++) a.push_back(r.coin() ? 0xFE : 0xFD);
+						lop.set("a", hex_of(a));
+					}
+					ops.push(lop);
 				}
 				tasks.push(ops);
 			}
 			ph.set("tasks", tasks);
 			// capacity announcements from the interface at random moments
 			J ev = J::arr();
-			if (r.chance(600)) {
+			if (storm) { J e = J::obj(); e.set("at_us", 0); e.set("node", J::arr()); e.set("type", (int) MSG_PKT_CAPACITY); e.set("data", pc::jarr({(int) r.range(240, 255)})); e.set("tag", 1); ev.push(e); }
+			else if (r.chance(600)) {
 				int n = (int) r.range(1, 4);
 				std::vector<int> ts;
 				for (int i = 0; i < n; i++) ts.push_back((int) r.range(0, 40000));
 				std::sort(ts.begin(), ts.end());
 				for (int i = 0; i < n; i++) {
 					J e = J::obj(); e.set("at_us", ts[(size_t) i]); e.set("node", J::arr()); e.set("type", (int) MSG_PKT_CAPACITY);
-					int cap = r.chance(300) ? (int) r.range(157, 255) : (int) r.range(0, 255);
+					int cap = r.chance(normal ? 600 : 300) ? (int) r.range(157, 255) : (int) r.range(0, 255);
 					e.set("data", pc::jarr({cap})); e.set("tag", 1);
 					ev.push(e);
 				}
@@ -87,7 +101,9 @@ struct C01 : Prop {
 		}
 		se.set("phases", phs);
 		J ss = J::arr(); ss.push(se); plan.set("sessions", ss);
-		plan.set("sched", sched_json(r, tier, maxtasks, true));
+		J sc = sched_json(r, tier, maxtasks, true);
+		if (normal) cfg::starve_after_startup(sc, r);
+		plan.set("sched", sc);
 		return plan;
 	}
 
@@ -105,8 +121,11 @@ struct C01 : Prop {
 		last_pkt_step = 0; last_pkt_index = (size_t) -1; saw_multi = saw_escape = false;
 		e.bus.on_delivered = [this, &e](bus::UpFrame &f) {
 			(void) e;
-			if (f.tag == 1 && f.msgs.size() == 1 && f.msgs[0].type == MSG_PKT_CAPACITY && !f.msgs[0].data.empty()) {
-				unsigned v = f.msgs[0].data[0]; unsigned cap = v <= 64 ? 64 : v;
+			// every capacity announcement counts, whoever sends it (answers to bidib_send_get_pkt_capacity included); with several
+			// in one frame the largest is taken (lenient)
+			unsigned cap = 0;
+			for (auto &m : f.msgs) if (m.type == MSG_PKT_CAPACITY && !m.data.empty()) { unsigned v = m.data[0]; cap = std::max(cap, v <= 64 ? 64u : v); }
+			if (cap) {
 				ann_by_frame[f.id] = ann_first.size();
 				ann_first.push_back({f.first_read_step, cap});
 				ann_proc.push_back(0);
@@ -157,9 +176,14 @@ struct C01 : Prop {
 
 	void after_op(Engine &e, OpRec &) override { check_framing(e, false); }
 
-	void at_quiescence(Engine &e, int, int) override {
+	void at_quiescence(Engine &e, int s, int p) override {
 		check_framing(e, true);
 		if (e.bus.dec.escapes > 0) saw_escape = true;
+		if (e.plan["sessions"][(size_t) s]["phases"][(size_t) p].getb("warmup")) {
+			// the start-up dialogue of a normal-mode session is the library's own traffic (C20's subject): framing only
+			wire_checked = e.bus.wire.size(); ops_checked = e.oplog.size(); e.probe("normal_mode_sessions");
+			return;
+		}
 		// (c) multiset equality between accepted calls and wire messages since the last check
 		std::map<std::string, int> exp, got;
 		for (; ops_checked < e.oplog.size(); ops_checked++) {
